@@ -350,3 +350,46 @@ pub fn cli_stage(bin: &str, strings: &[(String, bool, bool)], acc: &mut Acc) {
         }
     }
 }
+
+/// shrink a failing string (loader-level signatures only): remove chunks of characters while
+/// the same signature persists
+pub fn minimise(v: &Violation, z: &ZobristHasher) -> Violation {
+    if v.scenario["origin"] == "cli" || v.scenario["origin"] == "position-command" {
+        return v.clone();
+    }
+    let mut best: Vec<char> = v.scenario["fen"].as_str().unwrap_or("").chars().collect();
+    let origin = v.scenario["origin"].as_str().unwrap_or("replay").to_string();
+    let still = |cs: &[char]| -> bool {
+        let s: String = cs.iter().collect();
+        let mut acc = Acc::new();
+        judge_string(&s, &origin, &mut acc, 0, z);
+        acc.violations.iter().any(|x| x.sig == v.sig)
+    };
+    if !still(&best) {
+        return v.clone();
+    }
+    let mut chunk = best.len() / 2;
+    while chunk >= 1 {
+        let mut i = 0;
+        while i + chunk <= best.len() {
+            let mut t = best.clone();
+            t.drain(i..i + chunk);
+            if still(&t) {
+                best = t;
+            } else {
+                i += chunk;
+            }
+        }
+        chunk /= 2;
+    }
+    let s: String = best.iter().collect();
+    let mut acc = Acc::new();
+    judge_string(&s, &origin, &mut acc, v.run, z);
+    match acc.violations.into_iter().find(|x| x.sig == v.sig) {
+        Some(mut x) => {
+            x.run = v.run;
+            x
+        }
+        None => v.clone(),
+    }
+}
